@@ -113,9 +113,9 @@ func (valdec mapDecoder) decodeListAsMap(dec *Decoder, p interface{}, tag byte) 
 	valdec.t.UnsafeSet(mp, valdec.t.UnsafeMakeMap(count))
 	dec.AddReference(p)
 	kp := valdec.kt.UnsafeNew()
-	vp := valdec.vt.UnsafeNew()
 	vt := valdec.vt.Type1()
 	for i := 0; i < count; i++ {
+		vp := valdec.vt.UnsafeNew()
 		valdec.convertKey(i, kp)
 		valdec.decodeValue(dec, vt, vp)
 		valdec.t.UnsafeSetIndex(mp, kp, vp)
@@ -129,10 +129,10 @@ func (valdec mapDecoder) decodeMap(dec *Decoder, p interface{}) {
 	valdec.t.UnsafeSet(mp, valdec.t.UnsafeMakeMap(count))
 	dec.AddReference(p)
 	kp := valdec.kt.UnsafeNew()
-	vp := valdec.vt.UnsafeNew()
 	kt := valdec.kt.Type1()
 	vt := valdec.vt.Type1()
 	for i := 0; i < count; i++ {
+		vp := valdec.vt.UnsafeNew()
 		valdec.decodeKey(dec, kt, kp)
 		valdec.decodeValue(dec, vt, vp)
 		valdec.t.UnsafeSetIndex(mp, kp, vp)
